@@ -67,6 +67,8 @@ func opAA(req map[string]any) (any, error) {
 				res["validate_error"] = err.Error()
 			}
 		}
+		stages := []map[string]any{}
+		wantStages, _ := req["stages"].(bool)
 		for _, step := range strs(req, "pipeline") {
 			switch step {
 			case "merge":
@@ -76,6 +78,12 @@ func opAA(req map[string]any) (any, error) {
 			case "format":
 				rs = rs.Format()
 			}
+			if wantStages {
+				stages = append(stages, map[string]any{"step": step, "rules": dumpRules(rs), "text": rs.String()})
+			}
+		}
+		if wantStages {
+			res["stages"] = stages
 		}
 		res["rules"] = dumpRules(rs)
 		res["text"] = rs.String()
